@@ -7,6 +7,7 @@ From Pq Require Import Base.Bytes Base.Bits Base.ListX Proofs.BytesProofs Proofs
   Proofs.CompactProofs Codec.Varint Codec.Bitpack Codec.Hybrid Thrift.Compact Thrift.Idl Thrift.IdlPinned
   Format.Phys Format.Meta Format.Page Format.ChunkLayout Format.File Format.Enc.
 From Pq Require Import Proofs.HybridProofs Proofs.FormatCodecProofs.
+From Pq Require Proofs.DeltaProofs.
 Import ListNotations.
 Open Scope N_scope.
 Open Scope list_scope.
@@ -118,7 +119,9 @@ Definition store_wf (cd : coldesc) (k : N) (s : vstore) : Prop :=
                       k <= N.of_nat (length (runs_total runs))
   | SRleBool runs => cd_type cd = BOOLEAN /\ Forall (run_ok 1) runs /\ k <= N.of_nat (length (runs_total runs)) /\
                      lenN (hyb_enc 1 runs) < 2 ^ 32
-  | SDelta _ _ _ => False          (* DELTA_BINARY_PACKED: not covered by this theorem (see notes) *)
+  | SDelta bs mpb zs =>              (* any block shape with a multiple of 8 values per miniblock *)
+    exists bits q mp, int_bits (cd_type cd) = Some bits /\ bs = N.of_nat (8 * q * mp) /\ mpb = N.of_nat mp /\
+                      (1 <= q)%nat /\ (1 <= mp)%nat /\ Forall (DeltaProofs.in_range bits) zs /\ N.of_nat (length zs) = k
   | SRaw _ _ => False
   end.
 
@@ -147,6 +150,14 @@ Proof.
     cbn [store_enc store_bytes]. unfold dec_values. cbn [Z.eqb E_PLAIN E_RLE E_PLAIN_DICT E_RLE_DICT orb].
     rewrite Ht. rewrite hyb_enc_len_x_ok, hyb_len_rt by assumption.
     now rewrite takeN_ok, runs_vals_ok.
+  - (* DELTA_BINARY_PACKED *)
+    destruct W as (bits & q & mp & Hb & -> & -> & Hq & Hmp & Hr & Hk).
+    cbn [store_values] in V. rewrite Hb in V. injection V as <-.
+    cbn [store_enc store_bytes]. unfold dec_values. cbn [Z.eqb E_PLAIN E_RLE E_PLAIN_DICT E_RLE_DICT E_DELTA orb].
+    rewrite Hb.
+    assert (B1 : 1 <= bits) by (destruct (cd_type cd); cbn in Hb; try discriminate; injection Hb as <-; lia).
+    rewrite (DeltaProofs.delta_roundtrip bits q mp zs rest B1 Hq Hmp Hr).
+    rewrite lenN_ok, Hk, N.eqb_refl. reflexivity.
 Qed.
 
 End WithCodecs.
